@@ -22,7 +22,7 @@ func New[T any](size int64) *RingBuffer[T] {
 
 func (r *RingBuffer[T]) Push(item T) {
 	if on() {
-		vsched.Op("push", nil, item)
+		vsched.OpOn(r, "push", nil, item)
 	}
 	r.rb.Push(item)
 	if on() {
@@ -32,7 +32,7 @@ func (r *RingBuffer[T]) Push(item T) {
 
 func (r *RingBuffer[T]) Len() int64 {
 	if on() {
-		vsched.Op("len", nil)
+		vsched.OpOn(r, "len", nil)
 	}
 	n := r.rb.Len()
 	if on() {
@@ -43,7 +43,7 @@ func (r *RingBuffer[T]) Len() int64 {
 
 func (r *RingBuffer[T]) Pop() (T, bool) {
 	if on() {
-		vsched.Op("pop", nil)
+		vsched.OpOn(r, "pop", nil)
 	}
 	x, ok := r.rb.Pop()
 	if on() {
@@ -54,7 +54,7 @@ func (r *RingBuffer[T]) Pop() (T, bool) {
 
 func (r *RingBuffer[T]) PopN(n int64) ([]T, bool) {
 	if on() {
-		vsched.Op("popn", nil, n)
+		vsched.OpOn(r, "popn", nil, n)
 	}
 	xs, ok := r.rb.PopN(n)
 	if on() {
